@@ -158,19 +158,20 @@ func (m *Model) PrepProbe(path string, probe interface{}) interface{} {
 
 // Search error classes.
 const (
-	EOK        = ""
-	EUnknownF  = "unknown-field"
-	EKeyType   = "unknown-key-type"
-	ECasting   = "casting"
-	EOperator  = "unknown-operator"
-	EBadRegex  = "bad-regex"
-	EAnyErr    = "error"
-	ENotFound  = "not-found"
-	EUnique    = "unique"
-	EInvalid   = "invalid"
-	EWrongType = "wrong-type"
-	ENoSchema  = "no-schema"
-	EUnserial  = "unserialisable"
+	EOK             = ""
+	EUnknownF       = "unknown-field"
+	EKeyType        = "unknown-key-type"
+	ECasting        = "casting"
+	EOperator       = "unknown-operator"
+	EBadRegex       = "bad-regex"
+	ERegexNonString = "regex-on-non-string"
+	EAnyErr         = "error"
+	ENotFound       = "not-found"
+	EUnique         = "unique"
+	EInvalid        = "invalid"
+	EWrongType      = "wrong-type"
+	ENoSchema       = "no-schema"
+	EUnserial       = "unserialisable"
 )
 
 // Match evaluates one comparison over the live objects by brute force.
@@ -202,7 +203,9 @@ func (m *Model) Match(path, op string, probe interface{}) ([]int, string) {
 	var rex *regexp.Regexp
 	if op == "~=" {
 		if class != 's' {
-			return nil, EAnyErr
+			// a pattern match on a non-string field: nothing can match; an error or an
+			// empty result are both valid answers, objects or a panic are not
+			return nil, ERegexNonString
 		}
 		var err error
 		if rex, err = regexp.Compile(np.S); err != nil {
